@@ -6,6 +6,7 @@ package main
 //                                       setup packet: `ok distinct <n>` or the violated clause
 //   mux route <nchan> <npkg> <seed>     the peer sends npkg packages per channel, interleaved at random, plus
 //                                       packets for unknown channels; one consumer goroutine per channel
+//   mux routepoll <nchan> <npkg> <seed> the same with consumers that poll (NextPackage without waiting) and are the only readers of the connection's errors
 //   mux tx <nchan> <nmsg> <seed>        one sender goroutine per channel, messages of random length: on the
 //                                       peer side every packet carries its channel's id and consecutive numbers
 //   mux setupsync <n>                  n logical channels set up against a peer whose acknowledgement is routed before
@@ -226,7 +227,10 @@ func muxImpl(line string) string {
 			}
 		}
 		return "ok setupsync"
-	case "route":
+	case "route", "routepoll":
+		// routepoll: the consumers poll (NextPackage without waiting) and nobody else reads the connection's
+		// errors: every packet for a channel that does not exist reaches one of the polling consumers
+		poll := f[1] == "routepoll"
 		nchan, npkg, seed := arg(2), arg(3), arg(4)
 		rng := rand.New(rand.NewSource(int64(seed)))
 		mc := newMemConn()
@@ -273,6 +277,10 @@ func muxImpl(line string) string {
 		errDone := make(chan struct{})
 		go func() {
 			for {
+				if poll {
+					<-errDone
+					return
+				}
 				select {
 				case <-conn.VerifErrCh():
 					emu.Lock()
@@ -288,7 +296,16 @@ func muxImpl(line string) string {
 			go func(c int) {
 				defer wg.Done()
 				for k := 0; k < npkg; k++ {
-					pkg, err := chans[c].NextPackage(ctx, true)
+					pkg, err := chans[c].NextPackage(ctx, !poll)
+					if poll && err != nil && strings.Contains(err.Error(), tds.ErrNoPackageReady.Error()) {
+						if ctx.Err() != nil {
+							bad[c] = "nothing more arrives"
+							return
+						}
+						time.Sleep(50 * time.Microsecond)
+						k--
+						continue
+					}
 					if err != nil {
 						// connection errors (unknown channel) may surface here: they are consumed by whoever reads first
 						if strings.Contains(err.Error(), "invalid channel") {
@@ -332,6 +349,24 @@ func muxImpl(line string) string {
 			time.Sleep(time.Millisecond)
 		}
 		time.Sleep(5 * time.Millisecond)
+		if poll {
+			// the errors not yet seen: keep polling on the first channel until all are there
+			for i := 0; i < 20000; i++ {
+				emu.Lock()
+				done := connErrs >= unknown
+				emu.Unlock()
+				if done {
+					break
+				}
+				if _, err := chans[0].NextPackage(ctx, false); err != nil && strings.Contains(err.Error(), "invalid channel") {
+					emu.Lock()
+					connErrs++
+					emu.Unlock()
+				} else {
+					time.Sleep(50 * time.Microsecond)
+				}
+			}
+		}
 		close(errDone)
 		for _, b := range bad {
 			if b != "" {
@@ -418,13 +453,12 @@ func muxImpl(line string) string {
 					body := wDone(0xFD, 1, 0, c*1000+m)
 					cut := 1 + rng.Intn(len(body)-1)
 					mc.feed(append([]byte{4, 0, 0, byte(cut + 8), byte(c >> 8), byte(c), 0, 0}, body[:cut]...))
-					for i := 0; i < 4000; i++ { // until the reader has handed the first part to this channel
-						rx, _ := ch.VerifQueues()
-						if dl, _, _, _, _ := rx.VerifState(); len(dl) > 0 {
-							break
-						}
+					// until the reader has taken what was fed (this channel's part among it) off the transport and
+					// had time to hand it over — looking into the queue itself from here would race with the reader
+					for i := 0; i < 4000 && !mc.drained(); i++ {
 						time.Sleep(50 * time.Microsecond)
 					}
+					time.Sleep(300 * time.Microsecond)
 					pkg := tds.NewTokenlessPackage()
 					pkg.Data.Write(genBytes(1+rng.Intn(700), c+m))
 					if err := ch.SendPackage(context.Background(), pkg); err != nil {
@@ -592,6 +626,9 @@ func init() {
 			}
 			for i := 0; i < n; i++ {
 				emit(Case{Line: fmt.Sprintf("mux route %d %d %d", 1+rng.Intn(8), 1+rng.Intn(12), rng.Intn(1<<30)), Kind: "route"})
+				if i%3 == 1 {
+					emit(Case{Line: fmt.Sprintf("mux routepoll %d %d %d", 1+rng.Intn(6), 1+rng.Intn(12), rng.Intn(1<<30)), Kind: "route-polling-consumers"})
+				}
 				emit(Case{Line: fmt.Sprintf("mux tx %d %d %d", 1+rng.Intn(8), 1+rng.Intn(6), rng.Intn(1<<30)), Kind: "tx"})
 				if i%4 == 0 {
 					emit(Case{Line: fmt.Sprintf("mux closeiso %d %d", 1+rng.Intn(5), rng.Intn(4)), Kind: "close-isolated"})
